@@ -120,9 +120,11 @@ class Module:
         self.source = source
         self.digest = hashlib.sha256(source.encode()).hexdigest()
         self.tree = ast.parse(source, filename=str(path))
-        from . import alpha
+        from . import alpha, normalise
 
+        # meaning-preserving normalisation of spelling variants (core/normalise.py), then
         # locals renamed in the in-memory tree back to the names the rules know (alpha-equivalent program; see core/alpha.py)
+        self.normalised = normalise.normalise(self.tree) if os.environ.get("VERIF_NO_NORMALISE") != "1" else {}
         self.renamings = alpha.canonicalise(self.tree, alpha.load_table().get(name)) if os.environ.get("VERIF_NO_ALPHA") != "1" else []
         self.classes = {}
         self.functions = {}
